@@ -9,7 +9,10 @@ ops (numbers decimal, addresses / byte strings hex, `-` = empty):
   answer `<checkpoint from the Go/tron layout> <eq|ne: Go pre-image = Solidity pre-image>`
 * `oracle <c> <oracleId> <bridger> <external>` / `index <c> <external> <oracleId>` — registry writes
 * `confirm <c> <oset|batch|bcall> <key…> <bridger> <external> <sig hex | !> <digest D the signature is over> <signer A | ->`
-  — answer `ok|err:<kind>` + the confirms stored for the object
+  — answer `ok|err:<kind>` + the confirms stored under the named key + `n=<all confirms stored on the chain>`; the handler
+  runs through the key plan regenerated from the Go source (`confirmStepG`)
+* `remove <c> <site> <oset|batch|bcall> <key…>` — a pruning site of the source (`deleteSites`, regenerated) removes the
+  object; answer `ok` + the confirms left under the key + `live=<0|1>` + `n=<all confirms>`
 -/
 open FxVerif FxVerif.Util FxVerif.Model.C12
 
@@ -50,11 +53,11 @@ def cpOf (tron : Bool) (kind : String) (o : Obj) (gid : Nat) : String × List Na
 
 def showConfirms (st : HState) (k : ObjKey) : String :=
   let es := (st.confirms.filter (·.key == k)).mergeSort (fun a b => a.oracle ≤ b.oracle)
-  "[" ++ ",".intercalate (es.map fun e => toString e.oracle ++ ":" ++ hex (e.sig.take 4)) ++ "]"
+  "[" ++ ",".intercalate (es.map fun e => toString e.oracle ++ ":" ++ hex (e.sig.take 4) ++ ":" ++ e.bridger ++ ":" ++ e.external) ++ "]"
 
 def errName : Err → String
   | .notFound => "notfound" | .sigDecode => "sigdecode" | .noOracle => "nooracle"
-  | .mismatch => "mismatch" | .badSig => "sig" | .duplicate => "dup"
+  | .mismatch => "mismatch" | .badSig => "sig" | .duplicate => "dup" | .modelGap => "modelgap"
 
 def withChain (s : St) (c : String) (f : Chain → Chain × String) : St × String :=
   match s.chains.lookup c with
@@ -65,17 +68,31 @@ def withChain (s : St) (c : String) (f : Chain → Chain × String) : St × Stri
 
 def store (ch : Chain) (kind : String) (k : ObjKey) (o : Obj) : Chain × String :=
   let (out, d) := cpOf ch.tron kind o ch.gid
-  ({ ch with st := step (fun _ _ => none) ch.st (.addObject k d) }, out)
+  ({ ch with st := stepG (fun _ _ => none) ch.st (.addObject k d) }, out)
 
 def doConfirm (ch : Chain) (k : ObjKey) (bridger ext sig d a : String) : Chain × String :=
   let sigv : Option (List Nat) := if sig == "!" then none else unhex sig
   match unhex d with
   | none => (ch, "bad-op")
   | some dig =>
-    let rec_ : List Nat → List Nat → Option String := fun digest _ => if digest == dig && a != "-" then some a else none
-    match confirmStep rec_ ch.st ⟨k, bridger, ext, sigv⟩ with
-    | .ok st' => ({ ch with st := st' }, "ok " ++ showConfirms st' k)
-    | .error e => (ch, "err:" ++ errName e ++ " " ++ showConfirms ch.st k)
+    -- the curve recovery is known at ONE point: over the signed digest `D`, the 65-byte signature with the recovery byte
+    -- reduced to 0/1 recovers to `A` (computed by the harness with go-ethereum); everywhere else it is unknown (= fails).
+    -- Length guard and recovery-byte normalisation are the model's (`decodeSig`, constants regenerated from the source).
+    let norm : List Nat := match sigv with
+      | some sg => (let v := sg.getD 64 0; if v == 27 || v == 28 then sg.set 64 (v - 27) else sg)
+      | none => []
+    let ec : List Nat → List Nat → Option String := fun h s' =>
+      if h == dig && s'.length == 65 && s'.getD 64 0 < 4 && s' == norm && a != "-" then some a else none
+    let rec_ : List Nat → List Nat → Option String := recoverVia (sigRuleFor ch.tron) (fun x => x.drop (prefixOf (sigRuleFor ch.tron)).length) ec
+    match confirmStepG rec_ ch.st ⟨k, bridger, ext, sigv⟩ with
+    | .ok st' => ({ ch with st := st' }, "ok " ++ showConfirms st' k ++ " n=" ++ toString st'.confirms.length)
+    | .error e => (ch, "err:" ++ errName e ++ " " ++ showConfirms ch.st k ++ " n=" ++ toString ch.st.confirms.length)
+
+def doRemove (ch : Chain) (site : String) (k : ObjKey) : Chain × String :=
+  let (dobj, dconf) := removeFlags site
+  let st' := stepG (fun _ _ => none) ch.st (.removeObject k dobj dconf)
+  ({ ch with st := st' }, "ok " ++ showConfirms st' k ++ " live=" ++ (if (st'.objects.lookup k).isSome then "1" else "0") ++
+    " n=" ++ toString st'.confirms.length)
 
 def stepLine (s : St) (line : String) : St × String :=
   match words line with
@@ -100,11 +117,11 @@ def stepLine (s : St) (line : String) : St × String :=
     | _, _, _, _, _, _, _, _, _ => (s, "bad-op")
   | ["oracle", c, oid, bridger, ext] =>
     match oid.toNat? with
-    | some o => withChain s c fun ch => ({ ch with st := step (fun _ _ => none) ch.st (.setOracle o ⟨bridger, ext⟩) }, "ok")
+    | some o => withChain s c fun ch => ({ ch with st := stepG (fun _ _ => none) ch.st (.setOracle o ⟨bridger, ext⟩) }, "ok")
     | none => (s, "bad-op")
   | ["index", c, ext, oid] =>
     match oid.toNat? with
-    | some o => withChain s c fun ch => ({ ch with st := step (fun _ _ => none) ch.st (.setIndex ext o) }, "ok")
+    | some o => withChain s c fun ch => ({ ch with st := stepG (fun _ _ => none) ch.st (.setIndex ext o) }, "ok")
     | none => (s, "bad-op")
   | ["confirm", c, "oset", nonce, bridger, ext, sig, d, a] =>
     match nonce.toNat? with
@@ -117,6 +134,18 @@ def stepLine (s : St) (line : String) : St × String :=
   | ["confirm", c, "bcall", nonce, bridger, ext, sig, d, a] =>
     match nonce.toNat? with
     | some n => withChain s c fun ch => doConfirm ch (.bridgeCall n) bridger ext sig d a
+    | none => (s, "bad-op")
+  | ["remove", c, site, "oset", nonce] =>
+    match nonce.toNat? with
+    | some n => withChain s c fun ch => doRemove ch site (.oracleSet n)
+    | none => (s, "bad-op")
+  | ["remove", c, site, "batch", tokText, nonce] =>
+    match nonce.toNat? with
+    | some n => withChain s c fun ch => doRemove ch site (.batch tokText n)
+    | none => (s, "bad-op")
+  | ["remove", c, site, "bcall", nonce] =>
+    match nonce.toNat? with
+    | some n => withChain s c fun ch => doRemove ch site (.bridgeCall n)
     | none => (s, "bad-op")
   | _ => (s, "bad-op")
 
